@@ -116,6 +116,10 @@ def run(tier):
         plans.append(dict(what='same with application disconnect(sid) calls', impl=impl,
                           cfg={'ping_interval': 8, 'ping_timeout': 4, 'monitor': True}, nslots=2,
                           scripts=c15_scripts(seed + 2, n // 2, w_api)))
+    pp = core.preempt_plan(seed, 300 if th else 40, 26, 2, dict(w_api, anyreq=0),
+                           {'ping_interval': 8, 'ping_timeout': 4, 'monitor': True},
+                           'requests, malformed bodies and application disconnect calls')
+    plans.append(pp)
     done = core.conform(ck, plans)
     # ---- completion, gateway protocol, status set ------------------------------------------
     nreq = 0
